@@ -342,6 +342,25 @@ def check_nodes(C, rep, tier, out):
         finally:
             C.primitive_vjps.pop(fun, None)
         out(f"{FN}.VJPNode.__init__:p{nparents}:VN-fields", ok, "parents stored; table entry applied once to (argnums, value, args, kwargs)")
+        # history independence of the lookup: the rule is the table's CURRENT entry, whatever earlier constructions saw (C19)
+        s1, s2 = object(), object()
+        try:
+            C.primitive_vjps[fun] = lambda *a: s1
+            n1 = C.VJPNode(value, fun, args, kwargs, argnums, parents)
+            C.primitive_vjps[fun] = lambda *a: s2
+            n2 = C.VJPNode(value, fun, args, kwargs, argnums, parents)
+            C.primitive_vjps.pop(fun, None)
+            try:
+                C.VJPNode(value, fun, args, kwargs, argnums, parents)
+                gone = False
+            except NotImplementedError:
+                gone = True
+            ok = n1.vjp is s1 and n2.vjp is s2 and gone
+        except Exception:
+            ok = False
+        finally:
+            C.primitive_vjps.pop(fun, None)
+        out(f"{FN}.VJPNode.__init__:p{nparents}:VN-fresh-lookup", ok, "each construction reads the table's current entry (re-registration / removal between two constructions is seen)")
         # --- JVPNode
         ps = tuple(C.JVPNode.new_root(Opaque(("pg", i))) for i in range(nparents))
         try:
@@ -362,6 +381,23 @@ def check_nodes(C, rep, tier, out):
         finally:
             C.primitive_jvps.pop(fun, None)
         out(f"{FN}.JVPNode.__init__:p{nparents}:JN-fields", ok, "parent tangents read in order; table entry applied once")
+        try:
+            C.primitive_jvps[fun] = lambda *a: s1
+            n1 = C.JVPNode(value, fun, args, kwargs, argnums, ps)
+            C.primitive_jvps[fun] = lambda *a: s2
+            n2 = C.JVPNode(value, fun, args, kwargs, argnums, ps)
+            C.primitive_jvps.pop(fun, None)
+            try:
+                C.JVPNode(value, fun, args, kwargs, argnums, ps)
+                gone = False
+            except NotImplementedError:
+                gone = True
+            ok = n1.g is s1 and n2.g is s2 and gone
+        except Exception:
+            ok = False
+        finally:
+            C.primitive_jvps.pop(fun, None)
+        out(f"{FN}.JVPNode.__init__:p{nparents}:JN-fresh-lookup", ok, "each construction reads the table's current entry")
     r = C.VJPNode.new_root()
     out(f"{FN}.VJPNode.initialize_root:VN-root", r.parents == [] and tuple(r.vjp(Opaque(("g",)))) == (), "root has no parents, empty vjp")
     g = Opaque(("g",))
